@@ -812,6 +812,15 @@ def apply_forloops(ed, loops, src, ann, qual):
                 ed.add(b0 + mm.start(), b0 + mm.end(), "{ " + step + " continue; }", "D3", "continue target made explicit")
             continue
         byref = False
+        enum_bind = ""
+        me = re.match(r"^(.*)\.enumerate\(\)$", xtxt, re.S)
+        if me:
+            # D3 on `for (i, x) in X.iter[_mut]().enumerate()`: the counter is the loop index itself
+            mp_ = re.match(r"^\(\s*(\w+)\s*,\s*(.+)\)$", ptxt.strip(), re.S)
+            if not mp_:
+                raise Inconclusive(f"D3: enumerate loop #{k} of {qual} without an `(i, x)` pattern")
+            xtxt, ptxt = me.group(1).strip(), mp_.group(2).strip()
+            enum_bind = f"let {mp_.group(1)}: usize = verif_i{k}; "
         m = re.match(r"^(.*)\.iter\(\)$", xtxt, re.S)
         if m:
             xtxt, byref = m.group(1), True
@@ -823,13 +832,13 @@ def apply_forloops(ed, loops, src, ann, qual):
         bind = f"let {ptxt} = &verif_v{k}[verif_i{k}];" if byref else f"let {ptxt} = verif_elem(&verif_v{k}, verif_i{k});"
         b0, b1 = l["body"]
         head = (f"let verif_v{k} = {'&' if byref else ''}{xtxt}; let mut verif_i{k}: usize = 0;\nwhile verif_i{k} < verif_v{k}.len()\n" + inv.rstrip()
-                + f"\n    decreases verif_v{k}.len() - verif_i{k}\n{{ {bind}\n")
+                + f"\n    decreases verif_v{k}.len() - verif_i{k}\n{{ {enum_bind}{bind}\n")
         m3 = re.match(r"^(.*)\.iter_mut\(\)$", xtxt, re.S)
         if m3:
             # mutable iteration: the place expression is indexed in place (no binding of the collection)
             place = m3.group(1)
             head = (f"let mut verif_i{k}: usize = 0;\nwhile verif_i{k} < {place}.len()\n" + inv.rstrip()
-                    + f"\n    decreases {place}.len() - verif_i{k}\n{{ let {ptxt} = &mut {place}[verif_i{k}];\n")
+                    + f"\n    decreases {place}.len() - verif_i{k}\n{{ {enum_bind}let {ptxt} = &mut {place}[verif_i{k}];\n")
         ed.add(l["span"][0], b0 + 1, head, "D3", f"`for {ptxt} in {xtxt[:30]}` desugared to an index loop (body copied by span)")
         ed.add(b1 - 1, b1 - 1, f" verif_i{k} = verif_i{k} + 1; ", None)
         body_txt = src[b0:b1].decode()
